@@ -27,6 +27,21 @@ def _strip(s):
     return re.sub(r"//[^\n]*", " ", s)
 
 
+def reader_options_read(repo):
+    """fields of carquet_reader_options_t that src/reader/*.c reads (beyond initialising / copying the struct).
+    The I/O-mode model of C03 knows use_mmap (the mode itself) and verify_checksums (page CRC decision, C14); any other
+    field that starts to influence the open or read path is a configuration the model does not cover - checks/C03.py
+    reports that as a broken tie."""
+    repo = Path(repo)
+    found = {}
+    for f in sorted((repo / "src/reader").glob("*.c")):
+        txt = _strip(f.read_text())
+        txt = re.sub(r"void\s+carquet_reader_options_init\s*\(.*?\n\}", " ", txt, flags=re.S)
+        for m in re.finditer(r"options\s*(?:\.|->)\s*(\w+)", txt):
+            found.setdefault(m.group(1), set()).add(f.name)
+    return {k: sorted(v) for k, v in found.items()}
+
+
 def generate(repo, outdir):
     repo, outdir = Path(repo), Path(outdir)
     col = _strip((repo / "src/reader/column_reader.c").read_text())
